@@ -8,12 +8,7 @@ fn show_repr(r: &EthernetRepr) -> String {
 }
 
 fn gen_type(r: &mut Rng) -> u16 {
-    match r.below(6) {
-        0 => 0x0800,
-        1 => 0x0806,
-        2 => 0x86dd,
-        _ => gen_u16(r),
-    }
+    draw_raw::<EthernetProtocol>(r) as u16
 }
 
 fn gen_emit(r: &mut Rng, _tier: &str) -> Vec<String> {
@@ -28,7 +23,7 @@ fn gen_parse(r: &mut Rng, tier: &str) -> Vec<String> {
     let repr = EthernetRepr {
         src_addr: EthernetAddress(gen_mac(r)),
         dst_addr: EthernetAddress(gen_mac(r)),
-        ethertype: EthernetProtocol::from(gen_type(r)),
+        ethertype: of_raw::<EthernetProtocol>((gen_type(r)) as u32),
     };
     let plen = gen_payload_len(r, tier, 1500).min(if r.chance(3, 4) { 64 } else { 1500 });
     let mut base = vec![0u8; 14 + plen];
@@ -47,7 +42,7 @@ fn run_op(op: &str) -> String {
         let repr = EthernetRepr {
             src_addr: EthernetAddress::from_bytes(&kv.b("src")),
             dst_addr: EthernetAddress::from_bytes(&kv.b("dst")),
-            ethertype: EthernetProtocol::from(kv.u("type") as u16),
+            ethertype: of_raw::<EthernetProtocol>((kv.u("type") as u16) as u32),
         };
         let mut buf = kv.b("buf");
         match guard(|| repr.emit(&mut EthernetFrame::new_unchecked(&mut buf[..]))) {
